@@ -288,7 +288,9 @@ fn feature_sweeps(rep: &mut Report, thorough: bool) {
                     let want_ev = rq & (1 << 29) != 0;
                     let snaps = h.probe_all().unwrap_or_default();
                     let all_q: Vec<bool> = snaps.iter().flat_map(|s| s.iter().map(|q| q.event_idx)).collect();
-                    if acked != vec![rq] || evs != vec![want_ev] || all_q.len() != nq || all_q.iter().any(|e| *e != want_ev) {
+                    // (delivered at least once, and every delivery carries the right value: the statement
+                    // does not say "exactly one callback")
+                    if acked.is_empty() || acked.iter().any(|a| *a != rq) || evs.is_empty() || evs.iter().any(|e| *e != want_ev) || all_q.len() != nq || all_q.iter().any(|e| *e != want_ev) {
                         rep.outcome("features-not-delivered");
                         rep.violation("C14:set_features:delivery", &format!("requested {rq:#x}: backend.acked_features got {:x?}, set_event_idx got {:?}, queues' event_idx {:?} (expected {want_ev} on {nq} queues)", acked, evs, all_q), case);
                     } else {
@@ -424,7 +426,7 @@ fn feature_histories(rep: &mut Report, depth: usize) {
                 };
                 let snaps = h.probe_all().unwrap_or_default();
                 let all_q: Vec<bool> = snaps.iter().flat_map(|s| s.iter().map(|q| q.event_idx)).collect();
-                if acked != vec![f] || evs.last() != Some(&want_ev) || all_q.len() != 2 || all_q.iter().any(|e| *e != want_ev) {
+                if acked.is_empty() || acked.iter().any(|a| *a != f) || evs.last() != Some(&want_ev) || all_q.len() != 2 || all_q.iter().any(|e| *e != want_ev) {
                     rep.outcome("feature-history-differs");
                     rep.violation("C14:feature_histories:delivery", &format!("after {:?}: SET_FEATURES({f:#x}) gave backend.acked_features {:x?}, set_event_idx {:?}, queues' event_idx {:?} (expected {want_ev})", &seq[..=k], acked, evs, all_q), case.clone());
                     break;
